@@ -128,7 +128,18 @@ def derivative_cases(model, tier, include_undefined_children, routes, retain=Fal
         wide += [(("Multiply", [keep, t]), f"retained:{l}") for (t, l) in wide if "<same" not in l]
     if include_undefined_children:
         from .simpengine import variable_free_inputs
-        wide += [(t, "variable-free:" + l) for (t, l) in variable_free_inputs(model) if not spec.variables(t)]
+        vfi = variable_free_inputs(model)
+        wide += [(t, "variable-free:" + l) for (t, l) in vfi if not spec.variables(t)]
+        # a variable-free (possibly undefined) term next to a variable under the parents whose rules
+        # do not evaluate their children themselves (sums and differences, also nested): every route
+        # must still notice it -- "no variable in it" is not "nothing to check"
+        xv, yv = ("Variable", "x"), ("Variable", "y")
+        for (b, l) in vfi:
+            if l != "fold":
+                continue
+            wide += [(("Add", [xv, b]), "variable-free-term:last"), (("Add", [b, xv]), "variable-free-term:first"),
+                     (("Minus", xv, b), "variable-free-term:subtrahend"), (("Minus", b, xv), "variable-free-term:minuend"),
+                     (("Add", [xv, ("Minus", yv, ("Add", [b, yv]))]), "variable-free-term:nested")]
     if include_undefined_children:
         inst += [(t, l, True) for (t, l) in depth2_instances(model, tier)]
     cases = []
